@@ -40,7 +40,9 @@ def relabel_nodes(
     # lists and tuples are containers: their elements are the children of the enclosing node
     is_container = isinstance(i, (list, tuple))
     if is_terminal(type(i), non_terminals) and (not is_container):
-        if not is_builtin(type(i)):
+        # (a class object held as a value -- e.g. one of the options of a VarRange -- is a plain value too: labelling it
+        # would label every instance of that class)
+        if not is_builtin(type(i)) and not isinstance(i, type):
             i.gengy_labeled = True
             i.gengy_distance_to_term = int(g.expansion_depthing)
             i.gengy_nodes = int(g.expansion_depthing)
